@@ -83,3 +83,53 @@ PROPS["C02"] = dict(
         "a plan stops once the node's incarnation reaches 2^32-1 (wrap-around is outside the property's quantifier)",
     ],
 )
+
+PROPS["C18"] = dict(
+    title="The CIDR allowlist is enforced on every admission path",
+    pkg="./props/c18",
+    level="exploration",
+    rule=("one real node with CIDRsAllowed drawn from 8 IPv4/IPv6 prefix sets (/0,/8,/12,/24,/25,/28,/32,/64,/128, several at once, always containing "
+          "the node itself); three subject names with generated prior state (absent/alive/dead/left, later suspect) and reclaim on/off; 1-14 steps of alive "
+          "claims whose advertised address is taken from a pool of allowed/disallowed 4-byte, 16-byte, IPv4-mapped and malformed (0,3,5,15,17 byte) forms, "
+          "sent from allowed or disallowed source addresses as single/compound/compressed/nested/CRC/ping-piggybacked packets, push/pull rows (join and "
+          "anti-entropy, all four states), address-less suspect/dead/left claims and sleeps past the reclaim time. Invariant after every step, against an "
+          "independent net/netip model: every Members() entry, every event and every table row (state dump) has an allowed address; an alive from a "
+          "disallowed source changes nothing. non-trivial = disallowed address on a path other than a plain new-node UDP alive, or a disallowed source"),
+    tests=[
+        dict(name="allow", run="^TestAllowlist$",
+             quick=dict(shards=16, checks=300, timeout=600),
+             thorough=dict(shards=16, checks=8000, timeout=3000)),
+    ],
+    assumptions=PUPPET_ASSUMPTIONS + [
+        "a non-nil empty allowlist means allow-all (pinned by IPMustBeChecked and Test_IsValidAddressOverride), so only non-empty lists are generated",
+        "the node's own address is inside its allowlist (a node outside its own list cannot be created)",
+    ],
+)
+
+CLUSTER_ASSUMPTIONS = COMMON_ASSUMPTIONS + [
+    "testing/synctest virtual clock; the harness owns the clock and the network (simnet), not the Go scheduler: interleavings inside one virtual instant are sampled",
+    "network decisions (latency, loss, duplication, cuts) are pure functions of (plan seed, link, per-link counter)",
+    "the independent wire mirror decodes every packet on the simulated wire",
+]
+
+PROPS["C04"] = dict(
+    title="No false suspicion in a healthy cluster",
+    pkg="./props/c04",
+    level="exploration",
+    rule=("2-8 (thorough: 2-16) real nodes with generated configuration (probe interval/timeout, suspicion multipliers, awareness max, indirect checks 0-4, TCP "
+          "pings on/off, protocol versions 1-5 uniform or mixed, encryption, label, compression, gossip/push-pull intervals); every packet latency hash-drawn in "
+          "(0, ProbeTimeout/2) (upper bound 5%-100% of it), no loss; nodes start and join through generated contacts at generated instants, and up to 12 "
+          "UpdateNode / Leave / user broadcast / SendBestEffort / SendReliable operations run at generated instants for 15-72 virtual seconds. Oracle over the "
+          "whole history: no suspect message and no third-party dead message on the decoded wire, no leave event or leave message for a member that did not "
+          "call Leave (none before the call), GetHealthScore()==0 on every node at every poll (period ProbeTimeout/4), no suspect/dead record in any final state "
+          "dump, event log replays to Members() on every node. non-trivial = n>=3, at least one user operation after the first second, and at least one "
+          "reordered packet pair on some link; distinct = distinct plans"),
+    tests=[
+        dict(name="healthy", run="^TestHealthyCluster$",
+             quick=dict(shards=16, checks=40, timeout=900),
+             thorough=dict(shards=16, checks=1500, timeout=3400)),
+    ],
+    assumptions=CLUSTER_ASSUMPTIONS + [
+        "a leaver keeps running until the end of the run (a node that stops responding is outside this property)",
+    ],
+)
